@@ -134,12 +134,14 @@ class ResourceManager:
         '''
         filtered_request = {name: n for name, n in request.items() if n > 0}
         if self._can_fulfill_request(filtered_request):
+            # Validate the whole request before reserving anything.
+            for resource_name, amount in request.items():
+                if amount < 0:
+                    raise ValueError(f'Requested amount for {resource_name} is less than 0.')
             # Reduce pools of available resources.
             for resource_name, amount in request.items():
                 if amount == 0:
                     continue
-                if amount < 0:
-                    raise ValueError(f'Requested amount for {resource_name} is less than 0.')
                 in_use, max_available = self._resources[resource_name]
                 self._resources[resource_name] = (in_use + amount, max_available)
                 self._record_resource_amount_update(resource_name)
